@@ -86,6 +86,7 @@ type loopInfo struct {
 	decSnap *Term
 	frameKeys []string
 	autoTerm bool
+	unroll   int
 	autoIter *ssa.Alloc
 	cellWrites map[string][]ssa.Value
 	pos     token.Pos
